@@ -170,6 +170,10 @@ fn corpus(ctx: CtxK, thorough: bool) -> Vec<Node> {
         AndV(bx(v(OrI(bx(Older(1)), bx(Older(4_194_305))))), bx(Older(2))),
         Thresh(2, vec![pk(0), Alt(bx(DupIf(bx(v(Older(10)))))), Alt(bx(DupIf(bx(v(Older(4_194_305))))))]),
         Thresh(1, vec![pk(0), Alt(bx(DupIf(bx(v(Older(10)))))), Alt(bx(DupIf(bx(v(Older(4_194_305))))))]),
+        Thresh(2, vec![pk(0), Alt(bx(ZeroNotEqual(bx(DupIf(bx(v(Older(10))))))))]),
+        Thresh(2, vec![pk(0), Alt(bx(ZeroNotEqual(bx(DupIf(bx(v(Older(10)))))))), Alt(bx(ZeroNotEqual(bx(DupIf(bx(v(After(100))))))))]),
+        Thresh(2, vec![pk(0), Alt(bx(ZeroNotEqual(bx(DupIf(bx(v(Older(10)))))))), Alt(bx(ZeroNotEqual(bx(DupIf(bx(v(Older(4_194_305))))))))]),
+        Thresh(1, vec![pk(0), Alt(bx(ZeroNotEqual(bx(DupIf(bx(v(Older(10)))))))), Alt(bx(ZeroNotEqual(bx(DupIf(bx(v(Older(4_194_305))))))))]),
         AndV(bx(v(Older(65_536 + 5))), bx(pk(0))), AndV(bx(v(Older(65_535))), bx(pk(0))),
         AndV(bx(v(After(499_999_999))), bx(pk(0))), AndV(bx(v(After(500_000_000))), bx(pk(0))),
         AndV(bx(v(After(1))), bx(pk(0))), AndV(bx(v(After(2_147_483_647))), bx(pk(0))),
@@ -190,7 +194,7 @@ fn corpus(ctx: CtxK, thorough: bool) -> Vec<Node> {
         c.push(Multi(1, vec![100, 0]));
     }
     c.extend(late_constants(ctx));
-    c.extend(atom_kinds(ctx));
+    c.extend(atom_kinds(ctx, thorough));
     // resource-limit boundaries: wide thresholds (ops, scriptSig size, stack items)
     let wide = |n: usize, kk: usize| {
         let mut xs = vec![pk(0)];
@@ -212,6 +216,32 @@ fn corpus(ctx: CtxK, thorough: bool) -> Vec<Node> {
         Thresh(kk, xs)
     };
     for n in 10..=20 { c.push(wide_h(n, n)); c.push(wide_h(n, 1)); c.push(wide_h(n, n - 1)); }
+    // exactly 201 / 202 executed opcodes: wide(50, k) has 198, every n: adds one (0NOTEQUAL)
+    let nz = |mut x: Node, times: usize| { for _ in 0..times { x = ZeroNotEqual(bx(x)); } x };
+    for kk in [1usize, 25, 50] {
+        for times in 2..=4 { c.push(nz(wide(50, kk), times)); }
+        c.push(nz(wide(49, kk.min(49)), 7)); c.push(nz(wide(49, kk.min(49)), 8));   // 194 + 7 / + 8
+    }
+    // uncompressed keys at the Legacy / Bare satisfaction-size boundary (32 bytes more per key,
+    // in the script and in the scriptSig)
+    if matches!(ctx, CtxK::Bare | CtxK::Legacy) {
+        let wide_hu = |n: usize, kk: usize, unc_every: usize| {
+            let key = |i: usize| if i % unc_every == 0 { 100 + (i % 4) as u32 } else { (i % 4) as u32 };
+            let mut xs = vec![Check(bx(PkH(key(0))))];
+            for i in 1..n { xs.push(Alt(bx(Check(bx(PkH(key(i))))))); }
+            Thresh(kk, xs)
+        };
+        for n in 8..=16 {
+            for every in [1usize, 2, 3] { c.push(wide_hu(n, n, every)); c.push(wide_hu(n, 1, every)); c.push(wide_hu(n, n - 1, every)); }
+        }
+        // pk_k children: the key is in the script (65 bytes), the scriptSig holds only the signature
+        for n in [5usize, 6, 7] {
+            let mut xs = vec![Check(bx(PkK(100)))];
+            for i in 1..n { xs.push(Alt(bx(Check(bx(PkK(100 + (i % 4) as u32)))))); }
+            c.push(Thresh(n, xs.clone())); c.push(Thresh(1, xs));
+        }
+    }
+    if ctx == CtxK::Legacy { c.extend(legacy_scriptsig_boundary()); }
     // Segwitv0: more than 100 witness items within 201 ops needs wide multis
     if ctx != CtxK::Tap {
         let m20 = |kk: usize| Multi(kk, (0..20).map(|i| (i % 4) as u32).collect());
@@ -287,7 +317,7 @@ fn late_constants(ctx: CtxK) -> Vec<Node> {
 
 /// every hash kind, every multi flavour (order-distinguishing), locks of both units including
 /// values with non-consensus bits, raw key hashes - each alone and under and / or / thresh
-fn atom_kinds(ctx: CtxK) -> Vec<Node> {
+fn atom_kinds(ctx: CtxK, thorough: bool) -> Vec<Node> {
     use Node::*;
     let k = |i: u32| if ctx == CtxK::Tap { 200 + i } else { i };
     let pk = |i: u32| Check(bx(PkK(k(i))));
@@ -322,20 +352,38 @@ fn atom_kinds(ctx: CtxK) -> Vec<Node> {
         out.push(AndOr(bx(a.clone()), bx(pk(0)), bx(pk(1)))); out.push(AndOr(bx(pk(0)), bx(a.clone()), bx(pk(1))));
         for kk in 1..=3usize { out.push(Thresh(kk, vec![pk(0), al.clone(), Alt(bx(pk(1)))])); out.push(Thresh(kk, vec![a.clone(), Alt(bx(pk(0))), al.clone()])); }
     }
+    let l3q: Vec<Node> = vec![Older(10), Older(65_535), Older(4_194_305), Older((1 << 20) + 7), After(100), After(500_000_001), After(1)];
     for l in &locks {
         out.push(l.clone());
         out.push(AndV(bx(v(pk(0))), bx(l.clone()))); out.push(AndV(bx(v(l.clone())), bx(pk(0))));
         out.push(OrI(bx(l.clone()), bx(pk(0)))); out.push(OrD(bx(pk(0)), bx(l.clone())));
         out.push(AndOr(bx(pk(0)), bx(l.clone()), bx(pk(1))));
-        let dl = Alt(bx(DupIf(bx(v(l.clone())))));
+        // `n:d:v:<lock>` is the B/d/u form a threshold accepts as a child (`d:v:` alone is not `u`)
+        let dl = Alt(bx(ZeroNotEqual(bx(DupIf(bx(v(l.clone())))))));
         for kk in 1..=3usize { out.push(Thresh(kk, vec![pk(0), dl.clone(), Alt(bx(pk(1)))])); }
         // pairs of locks: AND (refused when the units of one kind differ) and OR (never refused)
         for l2 in &locks {
             out.push(AndV(bx(v(l.clone())), bx(l2.clone())));
             out.push(OrI(bx(l.clone()), bx(l2.clone())));
-            out.push(Thresh(2, vec![pk(0), dl.clone(), Alt(bx(DupIf(bx(v(l2.clone())))))]));
+            if thorough || l3q.contains(l) && l3q.contains(l2) {
+                out.push(Thresh(2, vec![pk(0), dl.clone(), Alt(bx(ZeroNotEqual(bx(DupIf(bx(v(l2.clone())))))))]));
+            }
         }
     }
+    // three lock children / k = n: `combine_threshold` must compare EVERY pair of children
+    let l3: Vec<Node> = if thorough { vec![Older(10), Older(20), Older(4_194_305), Older(4_194_306), After(100), After(101), After(500_000_001)] }
+        else { vec![Older(10), Older(20), Older(4_194_305), After(100), After(500_000_001)] };
+    let dv = |l: &Node| ZeroNotEqual(bx(DupIf(bx(v(l.clone())))));
+    for a in &l3 { for b2 in &l3 { for c3 in &l3 {
+        for kk in (if thorough { 1..=3usize } else { 2..=3usize }) {
+            out.push(Thresh(kk, vec![dv(a), Alt(bx(dv(b2))), Alt(bx(dv(c3)))]));
+        }
+        out.push(Thresh(4, vec![pk(0), Alt(bx(dv(a))), Alt(bx(dv(b2))), Alt(bx(dv(c3)))]));
+        if thorough { out.push(Thresh(3, vec![pk(0), Alt(bx(dv(a))), Alt(bx(dv(b2))), Alt(bx(dv(c3)))])); }
+    } } }
+    for a in &l3 { for b2 in &l3 {
+        for kk in [1usize, 3] { out.push(Thresh(kk, vec![pk(0), Alt(bx(dv(a))), Alt(bx(dv(b2)))])); }
+    } }
     // a mixed path that exists only through a `0` (structural, not satisfiable)
     out.push(AndV(bx(v(Older(1))), bx(AndV(bx(v(Older(4_194_305))), bx(False)))));
     out.push(OrI(bx(pk(0)), bx(AndV(bx(v(Older(1))), bx(AndV(bx(v(Older(4_194_305))), bx(False)))))));
@@ -343,6 +391,109 @@ fn atom_kinds(ctx: CtxK) -> Vec<Node> {
     out.push(AndOr(bx(OrI(bx(False), bx(False))), bx(AndV(bx(v(After(100))), bx(After(500_000_001)))), bx(pk(1))));
     out
 }
+
+/// Legacy thresholds whose maximal scriptSig (satisfaction pushes + redeem script + its push
+/// opcode, as `check_local_policy_validity` counts it) is EXACTLY 1650 (accepted) and 1651 (refused):
+/// searched over mixes of pk_h (compressed / uncompressed), pk_k and hash children and `l:`
+/// wrappers, using the size the library itself computes (the redeem script must stay <= 520).
+fn legacy_scriptsig_boundary() -> Vec<Node> { legacy_scriptsig_boundary_sized().into_iter().map(|(_, n)| n).collect() }
+fn legacy_scriptsig_boundary_sized() -> Vec<(usize, Node)> {
+    static T: std::sync::OnceLock<Vec<(usize, Node)>> = std::sync::OnceLock::new();
+    T.get_or_init(legacy_scriptsig_boundary_search).clone()
+}
+fn legacy_scriptsig_boundary_search() -> Vec<(usize, Node)> {
+    use Node::*;
+    let mut found: Vec<(usize, Node)> = vec![];
+    let (mut n50, mut n51) = (0, 0);
+    'outer: for u in 0..=3usize { for b in 0..=3usize { for h in 0..=3usize { for a in (4..=13usize).rev() { for t in 0..=14usize {
+        let mut kids: Vec<Node> = vec![];
+        for i in 0..a { kids.push(Check(bx(PkH((i % 4) as u32)))); }
+        for i in 0..u { kids.push(Check(bx(PkH(100 + (i % 4) as u32)))); }
+        for i in 0..b { kids.push(Check(bx(PkK(4 + (i % 4) as u32)))); }
+        for i in 0..h { kids.push(Hash(HK::Hash160, (i % 4) as u32)); }
+        if kids.len() < 2 { continue; }
+        for i in 0..t.min(kids.len()) { let k = kids[i].clone(); kids[i] = OrI(bx(False), bx(k)); }
+        let n = kids.len();
+        let xs: Vec<Node> = kids.into_iter().enumerate().map(|(i, k)| if i == 0 { k } else { Alt(bx(k)) }).collect();
+        let node = Thresh(n, xs);
+        // the size `Legacy::check_local_policy_validity` compares with 1650: satisfaction pushes
+        // + redeem script + its push opcode
+        let sz = match ast::to_ms::<PublicKey, Legacy>(&node) {
+            Ok(ms) => ms.ext.sat_data.map(|d| {
+                let ss = ms.script_size();
+                d.max_script_sig_size + ss + if ss < 76 { 1 } else if ss < 0x100 { 2 } else { 3 }
+            }),
+            Err(_) => None,
+        };
+        match sz {
+            Some(1650) if n50 < 3 => { n50 += 1; found.push((1650, node)); }
+            Some(1651) if n51 < 3 => { n51 += 1; found.push((1651, node)); }
+            _ => {}
+        }
+        if n50 >= 3 && n51 >= 3 { break 'outer; }
+    } } } } }
+    found
+}
+
+/// what `decode(encode(ms))` is as a tree: `pk_h` becomes a raw key hash, sorted multis become
+/// plain ones with the keys in script order
+fn decoded_form(n: &Node) -> Node {
+    use Node::*;
+    let d = |x: &Node| bx(decoded_form(x));
+    match n {
+        PkH(k) => RawPkH(*k),
+        SortedMulti(k, ks) => { let mut v = ks.clone(); v.sort_by_key(|i| ast::bip67_sort(&ast::full_key(*i))); Multi(*k, v) }
+        SortedMultiA(k, ks) => { let mut v = ks.clone(); v.sort_by_key(|i| ast::xonly_key(*i).serialize()); MultiA(*k, v) }
+        Alt(x) => Alt(d(x)), Swap(x) => Swap(d(x)), Check(x) => Check(d(x)), DupIf(x) => DupIf(d(x)), Verify(x) => Verify(d(x)),
+        NonZero(x) => NonZero(d(x)), ZeroNotEqual(x) => ZeroNotEqual(d(x)),
+        AndV(a, b) => AndV(d(a), d(b)), AndB(a, b) => AndB(d(a), d(b)), OrB(a, b) => OrB(d(a), d(b)), OrD(a, b) => OrD(d(a), d(b)),
+        OrC(a, b) => OrC(d(a), d(b)), OrI(a, b) => OrI(d(a), d(b)), AndOr(a, b, c) => AndOr(d(a), d(b), d(c)),
+        Thresh(k, xs) => Thresh(*k, xs.iter().map(decoded_form).collect()),
+        x => x.clone(),
+    }
+}
+
+/// the decoded and the parsed route to the same fragment: their `ext` (what `lift_check` reads)
+/// is filled by the leaf constructors of the decoder / parser, not by `from_ast`
+macro_rules! other_routes_impl { ($name:ident, $pk:ty, [$($gen:tt)*]) => {
+fn $name<$($gen)*>(out: &mut Out, ctx: CtxK, node: &Node) {
+    type Pk = $pk;
+    let ms: Miniscript<Pk, Ctx> = match ast::to_ms(node) { Ok(m) => m, Err(_) => return };
+    // parsed
+    match catch_unwind(AssertUnwindSafe(|| Miniscript::<Pk, Ctx>::from_str_with_validation_params(&ms.to_string(), &miniscript::ValidationParams::MAX))) {
+        Ok(Ok(parsed)) if parsed == ms => {
+            let ans = lift_answer(catch_unwind(AssertUnwindSafe(|| parsed.lift())));
+            out.count(&format!("lift-parsed {} {}", ctx.name(), if ans.starts_with("ERR:") { ans.as_str() } else { answer_class(&ans) }));
+            out.line(&format!("C lift {} {}", ctx.name(), node.wire()), &ans);
+            out.line(&format!("J liftsem {} {} {}", ctx.name(), node.wire(), ans), "ok");
+        }
+        Ok(Ok(_)) => out.count("route parsed: different tree (not judged here, C10)"),
+        Ok(Err(_)) => out.count("route parsed: refused"),
+        Err(_) => out.count("route parsed: panic (C11)"),
+    }
+    // decoded
+    let script = ms.encode();
+    let expect = decoded_form(node);
+    match catch_unwind(AssertUnwindSafe(|| Miniscript::<Pk, Ctx>::decode_with_validation_params(&script, &miniscript::ValidationParams::MAX))) {
+        Ok(Ok(dec)) => {
+            match ast::to_ms::<Pk, Ctx>(&expect) {
+                Ok(e) if e == dec => {
+                    let ans = lift_answer(catch_unwind(AssertUnwindSafe(|| dec.lift())));
+                    out.count(&format!("lift-decoded {} {}", ctx.name(), if ans.starts_with("ERR:") { ans.as_str() } else { answer_class(&ans) }));
+                    out.line(&format!("C lift {} {}", ctx.name(), expect.wire()), &ans);
+                    out.line(&format!("J liftsem {} {} {}", ctx.name(), expect.wire(), ans), "ok");
+                    out.line(&format!("J liftrefusal {} {} {}", ctx.name(), expect.wire(), ans), "ok");
+                }
+                _ => out.count("route decoded: different tree (not judged here, C04)"),
+            }
+        }
+        Ok(Err(_)) => out.count("route decoded: refused"),
+        Err(_) => out.count("route decoded: panic (C11)"),
+    }
+}
+} }
+other_routes_impl!(other_routes_pk, PublicKey, [Ctx: ScriptContext<Key = PublicKey>]);
+other_routes_impl!(other_routes_x, XOnlyPublicKey, [Ctx: ScriptContext<Key = XOnlyPublicKey>]);
 
 /* ------------------------------------------------------------------ descriptors */
 
@@ -374,8 +525,116 @@ fn desc_lines<Pk: HKey>(out: &mut Out, kind: &str, args: &str, d: Result<Descrip
     out.line(&format!("J liftdesc-sem {} {} {}", kind, args, ans), "ok");
 }
 
+/// wire form of a lifted policy over ANY key type, keys named by `kid` (hashes are not used by
+/// the callers)
+fn sem_wire_keys<Pk: miniscript::MiniscriptKey>(p: &Semantic<Pk>, kid: &dyn Fn(&Pk) -> String) -> String {
+    match p {
+        Semantic::Unsatisfiable => "UNSATISFIABLE".into(),
+        Semantic::Trivial => "TRIVIAL".into(),
+        Semantic::Key(k) => format!("pk({})", kid(k)),
+        Semantic::After(t) => format!("after({})", t.to_consensus_u32()),
+        Semantic::Older(t) => format!("older({})", t.to_consensus_u32()),
+        Semantic::Thresh(t) => {
+            let mut s = format!("thresh({}", t.k());
+            for x in t.iter() { s.push(','); s.push_str(&sem_wire_keys(x, kid)); }
+            s.push(')');
+            s
+        }
+        _ => "?hash".into(),
+    }
+}
+
+fn keyed_answer<Pk: miniscript::MiniscriptKey>(r: std::thread::Result<Result<Semantic<Pk>, miniscript::Error>>, kid: &dyn Fn(&Pk) -> String) -> String {
+    match r {
+        Err(_) => "PANIC".into(),
+        Ok(Ok(p)) => sem_wire_keys(&p, kid),
+        Ok(Err(miniscript::Error::LiftError(LiftError::HeightTimelockCombination))) => "ERR:timelock".into(),
+        Ok(Err(miniscript::Error::LiftError(LiftError::BranchExceedResourceLimits))) => "ERR:limits".into(),
+        Ok(Err(miniscript::Error::LiftError(LiftError::RawDescriptorLift))) => "ERR:rawpkh".into(),
+        Ok(Err(_)) => "ERR:other".into(),
+    }
+}
+
+/// taproot over key types other than x-only keys: full keys (the two encodings 02X / 03X of one
+/// x-only key are DIFFERENT `Pk` values) and `DescriptorPublicKey` (parsed, wildcard xpubs).
+/// On the wire every key is named by the x-only key / derivation it stands for.
+fn tr_other_key_types(out: &mut Out) {
+    use miniscript::bitcoin::secp256k1::Secp256k1;
+    use miniscript::{DescriptorPublicKey, Terminal};
+    use std::str::FromStr;
+    use std::sync::Arc;
+    let secp = Secp256k1::new();
+    let pos = |i: u32| ast::full_key(i);
+    let neg = |i: u32| PublicKey::new(ast::full_key(i).inner.negate(&secp));
+    let kid = |pk: &PublicKey| msops::key_id_x(&pk.inner.x_only_public_key().0).map(|i| i.to_string()).unwrap_or("?".into());
+    let pkms = |k: PublicKey| -> Option<Miniscript<PublicKey, Tap>> {
+        Miniscript::from_ast(Terminal::Check(Arc::new(Miniscript::from_ast(Terminal::PkK(k)).ok()?))).ok()
+    };
+    // (internal key, leaves as (key, x-only id))
+    let cases: Vec<(PublicKey, u32, Vec<(PublicKey, u32)>)> = vec![
+        (pos(0), 200, vec![(neg(0), 200)]),
+        (neg(0), 200, vec![(pos(0), 200)]),
+        (pos(0), 200, vec![(pos(0), 200)]),
+        (pos(0), 200, vec![(neg(0), 200), (pos(1), 201)]),
+        (neg(1), 201, vec![(pos(0), 200), (neg(0), 200), (pos(1), 201)]),
+        (pos(2), 202, vec![(neg(0), 200), (pos(0), 200)]),
+    ];
+    for (ik, ikid, leaves) in cases {
+        let mss: Option<Vec<Miniscript<PublicKey, Tap>>> = leaves.iter().map(|(k, _)| pkms(*k)).collect();
+        let mss = match mss { Some(v) => v, None => { out.count("skipped tr-fullkey leaf refused"); continue } };
+        let mut tree = TapTree::leaf(mss[0].clone());
+        let mut ok = true;
+        for m in mss.iter().skip(1) { match TapTree::combine(tree.clone(), TapTree::leaf(m.clone())) { Ok(t) => tree = t, Err(_) => { ok = false; break } } }
+        if !ok { continue; }
+        let args = format!("{} {}", ikid, leaves.iter().map(|(_, i)| format!("c(pk_k({}))", i)).collect::<Vec<_>>().join(" "));
+        match Descriptor::<PublicKey>::new_tr(ik, Some(tree)) {
+            Err(_) => out.count("skipped descriptor-constructor-refused tr-fullkey"),
+            Ok(d) => {
+                let ans = keyed_answer(catch_unwind(AssertUnwindSafe(|| d.lift())), &kid);
+                out.count(&format!("liftdesc tr-fullkey {}", answer_class(&ans)));
+                out.line(&format!("C liftdesc tr {}", args), &ans);
+                out.line(&format!("J liftdesc-sem tr {} {}", args, ans), "ok");
+            }
+        }
+    }
+    // parsed descriptors over extended keys with wildcards
+    const X: &str = "xpub661MyMwAqRbcFW31YEwpkMuc5THy2PSt5bDMsktWQcFF8syAmRUapSCGu8ED9W6oDMSgv6Zz8idoc4a6mr8BDzTJY47LJhkJ8UB7WEGuduB";
+    let dkid = |k: &DescriptorPublicKey| {
+        let s = k.to_string();
+        if s.ends_with("/0/*") { "200".to_string() } else if s.ends_with("/1/*") { "201".into() } else if s.ends_with("/2/*") { "202".into() } else { "?".into() }
+    };
+    let x = |i: u32| format!("{}/{}/*", X, i);
+    let dcases: Vec<(String, String)> = vec![
+        (format!("tr({},{{pk({}),pk({})}})", x(0), x(1), x(0)), "200 c(pk_k(201)) c(pk_k(200))".into()),
+        (format!("tr({},pk({}))", x(0), x(0)), "200 c(pk_k(200))".into()),
+        (format!("tr({})", x(1)), "201".into()),
+        (format!("tr({},{{pk({}),{{pk({}),multi_a(2,{},{})}}}})", x(0), x(1), x(0), x(0), x(1)), "200 c(pk_k(201)) c(pk_k(200)) multi_a(2,200,201)".into()),
+        (format!("tr({},{{and_v(v:pk({}),older(10)),pk({})}})", x(2), x(2), x(0)), "202 and_v(v(c(pk_k(202))),older(10)) c(pk_k(200))".into()),
+    ];
+    for (text, args) in dcases {
+        match catch_unwind(AssertUnwindSafe(|| Descriptor::<DescriptorPublicKey>::from_str(&text))) {
+            Ok(Ok(d)) => {
+                let ans = keyed_answer(catch_unwind(AssertUnwindSafe(|| d.lift())), &dkid);
+                out.count(&format!("liftdesc tr-xpub {}", answer_class(&ans)));
+                out.line(&format!("C liftdesc tr {}", args), &ans);
+                out.line(&format!("J liftdesc-sem tr {} {}", args, ans), "ok");
+            }
+            _ => out.count("skipped tr-xpub descriptor not parsed"),
+        }
+    }
+}
+
 fn descriptors(out: &mut Out, thorough: bool, rng: &mut Rng, pools: &[(CtxK, Vec<Node>)]) {
     let pool = |c: CtxK| -> &Vec<Node> { &pools.iter().find(|(x, _)| *x == c).unwrap().1 };
+    tr_other_key_types(out);
+    // the sortedmulti constructors
+    for (k, ids) in [(2usize, vec![2u32, 0, 1]), (1, vec![1, 0]), (3, vec![1, 2, 0]), (2, vec![100, 0, 1]), (1, vec![0, 100]), (2, vec![3, 3, 1])] {
+        let keys: Vec<PublicKey> = ids.iter().map(|i| ast::full_key(*i)).collect();
+        let arg = format!("sortedmulti({},{})", k, ids.iter().map(|i| i.to_string()).collect::<Vec<_>>().join(","));
+        if let Ok(t) = miniscript::Threshold::new(k, keys.clone()) { desc_lines(out, "wsh", &arg, Descriptor::<PublicKey>::new_wsh_sortedmulti(t)); }
+        if let Ok(t) = miniscript::Threshold::new(k, keys.clone()) { desc_lines(out, "sh", &arg, Descriptor::<PublicKey>::new_sh_sortedmulti(t)); }
+        if let Ok(t) = miniscript::Threshold::new(k, keys.clone()) { desc_lines(out, "shwsh", &arg, Descriptor::<PublicKey>::new_sh_wsh_sortedmulti(t)); }
+    }
     // single-key outputs
     for k in (0u32..10).chain(100..104) {
         desc_lines(out, "pkh", &k.to_string(), Descriptor::<PublicKey>::new_pkh(ast::full_key(k)));
@@ -608,8 +867,18 @@ pub fn run(out: &mut Out, thorough: bool, seed: u64) {
         }
         nodes.sort(); nodes.dedup();
         let enumerated = nodes.len();
-        let corp = corpus(ctx, thorough);
+        let mut corp = corpus(ctx, thorough);
+        corp.extend(ast::dimension_corpus(ctx));
         let n_corp = corp.len();
+        let route_nodes: Vec<Node> = {
+            let mut v: Vec<Node> = corp.iter().filter(|n| n.size() <= 30).cloned().collect();
+            v.sort(); v.dedup();
+            // thin slice in quick: every 4th corpus fragment plus the whole dimension corpus
+            if thorough { v } else {
+                let dim = ast::dimension_corpus(ctx);
+                v.into_iter().enumerate().filter(|(i, n)| i % 4 == 0 || dim.contains(n)).map(|(_, n)| n).collect()
+            }
+        };
         nodes.extend(corp);
         nodes.sort(); nodes.dedup();
         out.note(&format!("fragments_{}", ctx.name()), format!("{} distinct ({} enumerated+random, {} corpus entries)", nodes.len(), enumerated, n_corp));
@@ -622,6 +891,24 @@ pub fn run(out: &mut Out, thorough: bool, seed: u64) {
             }
         }
         pools.push((ctx, accepted));
+        for node in &route_nodes {
+            match ctx {
+                CtxK::Bare => other_routes_pk::<BareCtx>(out, ctx, node),
+                CtxK::Legacy => other_routes_pk::<Legacy>(out, ctx, node),
+                CtxK::Segwitv0 => other_routes_pk::<Segwitv0>(out, ctx, node),
+                CtxK::Tap => other_routes_x::<Tap>(out, ctx, node),
+            }
+        }
+    }
+    let lb = legacy_scriptsig_boundary_sized();
+    out.note("legacy_scriptsig_boundary", format!("{} scripts with max scriptSig exactly 1650, {} with 1651",
+        lb.iter().filter(|(s, _)| *s == 1650).count(), lb.iter().filter(|(s, _)| *s == 1651).count()));
+    for (s, n) in &lb {
+        // the boundary itself, judged through the model: 1650 lifts, 1651 is refused
+        if let Ok(ms) = ast::to_ms::<PublicKey, Legacy>(n) {
+            let ans = lift_answer(catch_unwind(AssertUnwindSafe(|| ms.lift())));
+            out.count(&format!("legacy scriptSig {} -> {}", s, if ans.starts_with("ERR:") { ans.as_str() } else { "lifted" }));
+        }
     }
     descriptors(out, thorough, &mut rng, &pools);
     compile_lines(out, thorough, &mut rng);
